@@ -36,7 +36,7 @@ ASSUMPTIONS = [
 ]
 MUST_SEE = ["raised_with_options", "failpoints_fired", "failpoint_nested", "default_after_fault", "bomb_positions", "corrupt_payloads", "option_subsets", "mappings_walked", "explorer_children_checked", "index_sources_checked", "deser_with_options"]
 CONFIG = {
-    "quick": {"shards": 16, "trees": 6, "subsets": 14, "failpoint_trees": 1, "watchdog_s": 600},
+    "quick": {"shards": 16, "trees": 16, "subsets": 14, "failpoint_trees": 1, "watchdog_s": 600},
     "thorough": {"shards": 32, "trees": 40, "subsets": 48, "failpoint_trees": 4, "watchdog_s": 3400},
 }
 
